@@ -7,7 +7,7 @@ from .common import Out, import_mbi
 
 ID = 'C15'
 RULE = ('Hypothesis draws a domain (1-5 attrs, sizes 1-6, non-lexicographic names), 0-200 records (skewed, duplicates, '
-        'boundary values), an optional weight vector (ints / non-integers / zeros), a data frame whose columns are '
+        'boundary values; column dtype int64/int32/int8/uint8/uint16), an optional weight vector (ints / non-integers / zeros), a data frame whose columns are '
         'shuffled and may include unused extra columns, a projection (ordered subset incl. full permutations; str / '
         'list / tuple spelling), a second projection applied to the first, a drop list, and a second domain for the '
         'binary domain laws; the vector is asked for again after the caller overwrote the first answer in place. Oracle: Counter-based contingency table + plain ordered-dict model of Domain. Non-trivial = '
@@ -27,6 +27,7 @@ def cases(draw, tier='quick'):
         'skew': draw(st.sampled_from([0.0, 0.5, 2.0])),
         'weights': draw(st.sampled_from(['none', 'none', 'int', 'float', 'float_zeros'])),
         'extra_cols': draw(st.integers(0, 2)),
+        'dtype': draw(st.sampled_from(['int64', 'int64', 'int32', 'uint8', 'uint16', 'int8'])),
         'col_perm': draw(st.permutations(list(range(len(attrs) + 2)))),
         'proj': draw(gen.ordered_subset(attrs, 1, len(attrs))),
         'proj_full': draw(st.permutations(attrs)),
@@ -57,7 +58,7 @@ def make_data(case):
         v = rng.choice(s, size=n, p=p)
         if n > 0 and rng.random() < 0.5:
             v[rng.integers(0, n)] = s - 1   # boundary value
-        cols[a] = v.astype(np.int64)
+        cols[a] = v.astype(np.dtype(case.get('dtype', 'int64')))      # encoded categorical columns are often stored in narrow integer types
     w = None
     if case['weights'] == 'int':
         w = rng.integers(0, 5, size=n).astype(float)
@@ -157,7 +158,7 @@ def run_case(case):
 
     shuffled = order[:len(attrs)] != attrs or case['extra_cols'] > 0
     out.nontrivial = len(attrs) >= 2 and n >= 1 and (proj != [a for a in attrs if a in proj] or w is not None or shuffled)
-    cls = ['weights:' + case['weights']]
+    cls = ['weights:' + case['weights'], 'dtype:' + case.get('dtype', 'int64')]
     if n == 0: cls.append('empty')
     if shuffled: cls.append('columns_shuffled_or_extra')
     if sorted(case['proj_full']) == sorted(attrs) and list(case['proj_full']) != attrs: cls.append('full_permutation')
